@@ -423,15 +423,17 @@ class Ref:
             if r > MAX_INT or r < MIN_INT:
                 raise RefError(ANY_ERR, "result outside the integer range")
             return vint(r)
-        # symbolic: compute in 128 bits, where nothing can wrap
-        x, y = z3.SignExt(W, bv(a)), z3.SignExt(W, bv(b))
         if op in ("Divide", "Modulo"):
+            # quotient and remainder of 61-bit operands fit 64 bits: bvsdiv / bvsrem (truncation toward zero)
             if self.ctx.branch(bv(b) == 0):
                 raise RefError(ANY_ERR, "zero divisor")
-            q = x / y  # bvsdiv: truncation toward zero
-            r = q if op == "Divide" else x - q * y
-        else:
-            r = {"Add": x + y, "Subtract": x - y, "Multiply": x * y}[op]
+            r64 = (bv(a) / bv(b)) if op == "Divide" else z3.SRem(bv(a), bv(b))
+            if self.ctx.branch(z3.Or(r64 > MAXV, r64 < MINV)):
+                raise RefError(ANY_ERR, "result outside the integer range")
+            return vint(r64)
+        # symbolic: compute in 128 bits, where nothing can wrap
+        x, y = z3.SignExt(W, bv(a)), z3.SignExt(W, bv(b))
+        r = {"Add": x + y, "Subtract": x - y, "Multiply": x * y}[op]
         hi, lo = z3.BitVecVal(MAX_INT, 2 * W), z3.BitVecVal(MIN_INT, 2 * W)
         if self.ctx.branch(z3.Or(r > hi, r < lo)):
             raise RefError(ANY_ERR, "result outside the integer range")
